@@ -111,6 +111,7 @@ LD = ["zz_verif_load.go"]
 LDB = "<=%d files (AC raw, compressed CAS with size in the name, legacy .v1 CAS), file sizes, access times (distinct) and max_size symbolic; real worker goroutines, no preemption (round-robin at blocking points)"
 h("VerifLoad2", D, LD, LDB % 2, "start-up succeeds; survivors = the most recently accessed files that fit (files larger than max_size dropped and deleted); accounting and recency order match", unwind=24, switches=-1)
 h("VerifLoad3", D, LD, LDB % 3, "as VerifLoad2", unwind=24, switches=-1, timeout_s=1800)
+h("VerifLoadDup", D, LD, "1-2 files plus a second file for the key of the first (duplicate key), sizes/atimes/max_size symbolic", "duplicate files for one key: the newest that fits is kept, the other deleted, files that fit are not lost", unwind=24, switches=-1)
 h("VerifLoadExtras", D, LD, "one file plus lost+found directories or .DS_Store files", "harmless extra directory entries are ignored", unwind=24, switches=-1)
 
 CS = ["zz_verif_cas.go"]
@@ -123,6 +124,11 @@ CRB = "one well-formed upload (size <= 2 MiB) into an empty cache, killed at fil
 h("VerifCrashPutCasRaw", D, CR, CRB % 8, "kill during an upload (uncompressed CAS): restart succeeds, acknowledged data served, nothing torn served", unwind=24, switches=-1)
 h("VerifCrashPutAC", D, CR, CRB % 8, "kill during an upload (AC)", unwind=24, switches=-1)
 h("VerifCrashPutCasZstd", D, CR, CRB % 14, "kill during an upload (compressed CAS): restart succeeds, sizes agree; a file whose table is not finalised is rejected by readHeader", unwind=24, switches=-1)
+
+CF = "./config"
+CFF = ["zz_verif_config.go"]
+h("VerifValidateConfigRefuses", CF, CFF, "every plain setting an arbitrary ASCII string / integer / boolean; one invalid class assumed at a time (12 classes)", "validateConfig returns an error for every completion of the other settings", strings=True)
+h("VerifValidateConfigAccepts", CF, CFF, "-", "a minimal sane configuration is accepted; the same with a port conflict is refused", strings=True)
 
 # property -> (quick harnesses, additional thorough harnesses, assumptions, outside)
 CODEC = "zstd codec replaced by a contract stub: frames self-delimiting, Decode(Encode(x)) = x, anything else fails"
@@ -141,7 +147,7 @@ P = {
  "C05": (["VerifLRUAdd3", "VerifLRUReserve3", "VerifLRUGet", "VerifGetAC", "VerifContains"], ["VerifLRUAdd4", "VerifLRUReserve4", "VerifGetCasZstd", "VerifGetCasRaw"], [FSM], ["atime order after restart (C09)", "more live entries than the bound"]),
  "C06": (["VerifValidatedAC", "VerifValidatedACDir", "VerifValidatedACProxy"], ["VerifValidatedAC2"], [FSM, "proto.Unmarshal by identity: stored bytes decode to the registered message"], ["real protobuf decoding", "races between the check and a concurrent eviction"]),
  "C08": (["VerifCrashPutCasRaw", "VerifCrashPutAC", "VerifCrashPutCasZstd"], [], [FSM, HASH, CODEC], ["power loss, write reordering, fsync (process-kill semantics only)", "kill during start-up migration", "kill during overwrite/eviction/backend fetch (upload into an empty cache only)"]),
- "C09": (["VerifLoad2", "VerifLoadExtras"], ["VerifLoad3"], [FSM, "access times are the model's (distinct) integers"], ["real readdir order and atime semantics (relatime)", "legacy v0/v1 layouts (migration code is executed only on a current layout)", "more than 3 files", "schedules other than round-robin"]),
+ "C09": (["VerifLoad2", "VerifLoadDup", "VerifLoadExtras"], ["VerifLoad3"], [FSM, "access times are the model's (distinct) integers"], ["real readdir order and atime semantics (relatime)", "legacy v0/v1 layouts (migration code is executed only on a current layout)", "more than 3 files", "schedules other than round-robin"]),
  "C10": (["VerifFindMissing3", "VerifFindMissingProxy1", "VerifFindMissingBatch", "VerifFindMissingBatchProxy", "VerifFilterNonNil", "VerifContains"], ["VerifFindMissing4", "VerifFindMissingProxy2", "VerifFindMissingBatch2"], ["the backend is an arbitrary per-hash verdict"], ["hundreds of digests with all states symbolic", "512 real workers", "more than 2 preemptive context switches"]),
  "C11": (["VerifValidateFilesDirs", "VerifValidateSymlinks", "VerifValidateNil"], [], ["strings are ASCII (Go byte strings and SMT code-point strings agree there)"], ["field-by-field fidelity of proto.Marshal/Unmarshal and protojson", "non-ASCII strings"]),
  "C12": (["VerifProxyGetAC", "VerifProxyGetCasRaw", "VerifProxyGetCasZstd", "VerifPutRawProxy"], ["VerifProxyGetCasZstdZ", "VerifPutCasZstdProxy", "VerifPutCasRawProxy"], [FSM, CODEC, HASH, "the backend is an arbitrary cache.Proxy stub"], ["minio/azure/gcs SDK calls", "real HTTP body semantics"]),
@@ -151,6 +157,7 @@ P = {
  "C16": (["VerifBytestreamWrite2", "VerifBytestreamWriteZstd2", "VerifQueryWriteStatus"], ["VerifBytestreamWrite3"], ["disk.Cache replaced by a contract stub (Put consumes the reader and accepts exactly the declared bytes)"], ["grpc-go's own stream behaviour", "more than 3 messages", "more than 2 preemptive context switches"]),
  "C17": (["VerifLRUReserve3", "VerifLRURemove", "VerifLRUAdd3", "VerifPutAC", "VerifProxyGetAC"], ["VerifLRUReserve4", "VerifPutCasZstd", "VerifPutCasRaw", "VerifProxyGetCasRaw"], [FSM], ["real unlink latency"]),
  "C18": (["VerifPutAC", "VerifPutCasRaw", "VerifContains", "VerifProxyGetAC", "VerifBatchUpdateBlobs", "VerifBytestreamWrite2"], ["VerifPutCasZstd", "VerifProxyGetCasRaw", "VerifProxyGetCasZstd"], [FSM, HASH], ["transport-level message size limits"]),
+ "C19": (["VerifValidateConfigRefuses", "VerifValidateConfigAccepts"], [], ["net.SplitHostPort modelled by its contract (host:port / [host]:port)", "strings are ASCII"], ["the flags-versus-YAML agreement clause (urfave/cli and yaml.v3 are outside reach; F13/F14 candidates of DESIGN section 1 are not decided)", "environment-variable resolution", "setTLSConfig / setProxy / setLogger"]),
  "C20": (["VerifWriteZstd2", "VerifReadUncompressed4", "VerifReadZstd4", "VerifReadIdentity"], ["VerifWriteZstd3", "VerifReadUncompressed6", "VerifReadZstd6"], [CODEC, FSM], ["that chunk payloads are standard zstd frames", "files with more table entries than the bound"]),
 }
 
